@@ -3326,3 +3326,54 @@ def tracker_state_rules(ctx):
     f = ctx.fn('PageTracker::reset')
     if f is not None:
         ctx.must_pass(f, ctx.sites(f, 'PageTrackerPolicy::reset', exact=1), exits='any')
+
+
+# ------------------------------------------------------------------------------------ per-element completeness of bookkeeping loops
+def loop_completeness_rules(ctx):
+    ctx.set_rule('C06.R8', 'bookkeeping loops treat every element: no page / record of a batch can be skipped')
+    table = [
+        (PA + '::rollback_all', TM + '::free', 'rollback frees every page allocated since the last commit'),
+        (WT + '::extract_freed_pages', None, 'every page of every extracted freed-record is handed to the callback'),
+        (PCF + '::flush_write_buffer', CB + '::write', 'every buffered page of a stripe is written'),
+        ('TableTreeMut::delete_table', PA + '::free_if_uncommitted', 'every page of a deleted table is released or queued'),
+        ('<MultimapValue as Drop>::drop', PA + '::free_if_uncommitted', 'every free-on-drop page is released or queued'),
+        (WT + '::store_data_freed_pages_for', 'PageListMut::push_back', 'every freed page is written into a DATA_FREED_TABLE record'),
+        (WT + '::write_allocated_pages_entry', 'PageListMut::push_back', 'every allocated page is written into a DATA_ALLOCATED_TABLE record'),
+        ('SavepointTransactionState::apply_on_commit', TT + '::deallocate_savepoint', 'every savepoint deleted by the committed transaction is released'),
+        (WT + '::durable_commit', PA + '::free', 'every freed system-tree page is released after the commit'),
+        (WT + '::restore_savepoint_inner', PA + '::free', 'every page allocated by the restoring transaction so far is released'),
+        (TT + '::mark_non_durable_freed_pages_processed', 'BTreeSet::remove', 'every processed id leaves the unprocessed set'),
+        (TT + '::invalidate_savepoints', 'BTreeMap::remove', 'every invalidated savepoint leaves valid_savepoints'),
+    ]
+    n = 0
+    for fn_pat, callee, what in table:
+        f = ctx.fn(fn_pat)
+        if f is None:
+            continue
+        if callee is None:
+            tg = [cpoint(c, 'callback call') for c in f.calls if c.declared and c.declared.split('::')[-1] in ('call_mut', 'call_once', 'call') and c.resolved is None]
+        else:
+            tg = [cpoint(c) for c in f.calls_to(callee)]
+        ctx.check(len(tg) >= 1, 'floor|%s|%s' % (f.path, callee or 'callback'), 'the per-element call exists in %s' % fn_pat, f, f.line)
+        if tg:
+            ctx.each_iteration_passes(f, tg, what, 'element-skipped|%s' % (callee or 'callback'))
+            n += 1
+    ctx.check(n >= 10, 'floor|bookkeeping-loops', 'bookkeeping loops analysed: %d' % n)
+    # closures handed to the freed-table walkers free every page they are given
+    for fn_pat in (WT + '::process_freed_pages', WT + '::process_data_freed_pages_after_commit'):
+        f = ctx.fn(fn_pat)
+        if f is None:
+            continue
+        cls = [c for c in f.closures if c.calls_to(PA + '::free')]
+        ctx.check(len(cls) == 1, 'floor|%s|free-closure' % f.path, 'the page-freeing closure exists', f, f.line)
+        for cl in cls:
+            ctx.must_pass(cl, [cpoint(c) for c in cl.calls_to(PA + '::free')], exits='any', what='the closure frees every page it is given')
+    f = ctx.fn(WT + '::process_freed_pages_nondurable')
+    if f is not None:
+        cls = [c for c in f.closures if c.calls_to(TM + '::free_if_unpersisted')]
+        for cl in cls:
+            ctx.must_pass(cl, [cpoint(c) for c in cl.calls_to(TM + '::free_if_unpersisted')], exits='any', what='every in-memory freed page is offered to free_if_unpersisted')
+    f = ctx.fn(TM + '::process_unpersisted_data_freed')
+    if f is not None:
+        rp = [cpoint(c) for c in f.calls_to('UnpersistedState::replace_data_freed')]
+        ctx.each_iteration_passes(f, rp, 'every considered record is replaced by its survivors', 'record-skipped')
